@@ -234,7 +234,7 @@ func (b *BasicService) StopAsync() {
 		return
 	}
 
-	terminated, _ := b.switchState(New, Terminated, func() {
+	terminated, oldState := b.switchState(New, Terminated, func() {
 		// Service wasn't started yet, and it won't be now.
 		// Notify waiters and listeners.
 		close(b.runningWaitersCh)
@@ -242,7 +242,9 @@ func (b *BasicService) StopAsync() {
 		b.notifyListeners(func(l Listener) { l.Terminated(New) }, true)
 	})
 
-	if !terminated {
+	// If a concurrent StopAsync has terminated the service straight from New in the meantime,
+	// the service was never started and there is no context to cancel.
+	if !terminated && oldState != Terminated {
 		// Service is Starting or Running. Just cancel the context (it must exist,
 		// as it is created when switching from New to Starting state)
 		b.serviceCancel()
